@@ -68,6 +68,16 @@ def rule_guard_and_index(rep, tname):
                "access to `%s` is guarded by `%s` (must be the channel mask)" % (node["p"], mexp), loc(fn, node))
     rep.ob(RG, "%s/summary" % tname, n_guarded > 0, "%d accesses to caller buffers, all under the channel's own mask bit" % n_guarded, loc(fn),
            sample={"type": tname, "guarded_accesses": n_guarded})
+    # loop-carried frame variables (position, step, counter), identified by role
+    carried_names = set()
+    if RESAMPLERS[tname]["async"]:
+        try:
+            am = asyncmodel.extract(facts, tname)
+            carried_names = {v for v in (am["roles"]["idx"], am["roles"]["t"], am["roles"]["n"]) if v}
+            for a_ in am["arms"]:
+                carried_names.update(a_.get("carried", []))
+        except ir.AnchorMissing:
+            carried_names = {"n", "idx", "t_ratio"}
     # index discipline inside channel loops
     loops = locate(fn["body"], lambda x: x.get("k") == "for")
     n_idx = 0
@@ -97,7 +107,7 @@ def rule_guard_and_index(rep, tname):
                 r = self_field_root(x["l"])
                 if r and r not in PER_CHANNEL and r != "resampler":
                     rep.ob("R-C11-count", "%s/%s-in-channel-loop" % (tname, r), False, "state field `%s` is written inside the channel loop: frame accounting would depend on the mask" % r, loc(fn, x))
-                if x["l"].get("k") == "path" and x["l"]["p"] in ("n", "idx", "t_ratio"):
+                if x["l"].get("k") == "path" and x["l"]["p"] in carried_names:
                     rep.ob("R-C11-count", "%s/%s-in-channel-loop" % (tname, x["l"]["p"]), False, "`%s` is updated inside the channel loop" % x["l"]["p"], loc(fn, x))
     rep.ob(RI, "%s/summary" % tname, n_idx > 0, "%d per-channel container accesses, all indexed by the loop's channel variable" % n_idx, loc(fn),
            sample={"type": tname, "indexed_accesses": n_idx})
